@@ -1,5 +1,5 @@
 // C19 harness: colour-space conversions (gtc/color_space, gtx/color_space, gtx/color_space_YCoCg).
-// argv: <trace-out> <tier>
+// argv: <trace-out> <tier> [section: all | srgb | hsv | ycocg | int | sat]
 // The harness only executes GLM calls and logs raw bit patterns; every expected value, tolerance and law
 // lives in spec/glm/GlmColor.tla / spec/trace/Trace_C19.tla.  The only aggregation done here is the
 // equality count of the exhaustive YCoCg-R round-trip sweep (inverse(forward(t)) == t needs no oracle).
@@ -91,7 +91,7 @@ template<int L, class T, glm::qualifier Q> glm::vec<L, T, Q> window(std::vector<
 }
 template<class T> void srgb_all(Rng& rng) {
     const bool f = sizeof(T) == 4;
-    std::vector<T> p = srgb_points<T>(g_thorough ? (f ? 512 : 256) : (f ? 64 : 24), g_thorough ? (f ? 1500 : 600) : (f ? 120 : 30), rng);
+    std::vector<T> p = srgb_points<T>(g_thorough ? (f ? 512 : 128) : (f ? 64 : 24), g_thorough ? (f ? 1500 : 300) : (f ? 120 : 30), rng);
     if (!f && !g_thorough) {      // the exact comparisons on double are ~3x dearer: thin the list (keeping 0, 1 and the points around both knees)
         std::vector<T> q;
         for (size_t i = 0; i < p.size(); ++i)
@@ -112,7 +112,7 @@ template<class T> void srgb_all(Rng& rng) {
       for (size_t i = 0; i < 7; ++i) { glm::vec<3, T, glm::highp> v(odd[i], ratio<T>(1, 2), odd[(i + 1) % 7]); srgb_values(v, 2);
                                        glm::vec<4, T, glm::highp> w(ratio<T>(1, 4), odd[i], ratio<T>(3, 4), odd[(i + 2) % 7]); srgb_values(w, 1); } }
     // composed inverse on a denser grid (cheap to judge)
-    std::vector<T> d = srgb_points<T>(g_thorough ? 4096 : 512, g_thorough ? 6000 : 600, rng);
+    std::vector<T> d = srgb_points<T>(g_thorough ? 4096 : 512, g_thorough ? 4000 : 600, rng);
     const size_t m = d.size();
     for (size_t i = 0; i + 2 < m; i += 4) srgb_roundtrip(window<3, T, glm::highp>(d, i, 0), 6);
     for (size_t i = 0; i + 2 < m; i += 23) { srgb_roundtrip(window<4, T, glm::highp>(d, i, 1), 3); srgb_roundtrip(window<3, T, glm::mediump>(d, i, 0), 2);
@@ -154,7 +154,7 @@ template<class T> void hsv_all(Rng& rng) {
     }
     for (int k = 20; k <= 40; k += 2) { T t = pow2<T>(-k); hsv_of(V(t, T(0), T(0))); hsv_of(V(T(0), t, t / T(2))); hsv_of(V(t / T(4), t / T(2), t)); }
     hsv_of(V(T(0), T(0), T(0))); hsv_of(V(T(1), T(1), T(1))); hsv_of(VM(T(0), T(0), T(0))); hsv_of(VL(ratio<T>(1, 2), ratio<T>(1, 2), ratio<T>(1, 2)));
-    for (int i = 0; i < (g_thorough ? 20000 : 600); ++i) {
+    for (int i = 0; i < (g_thorough ? 8000 : 600); ++i) {
         T x = unit_random<T>(rng), y = unit_random<T>(rng), z = unit_random<T>(rng);
         hsv_of(V(x, y, z));
         if (i % 5 == 0) hsv_of(V(x, x, z)); if (i % 5 == 1) hsv_of(V(x, y, y)); if (i % 5 == 2) hsv_of(V(z, y, z));
@@ -175,7 +175,7 @@ template<class T> void hsv_all(Rng& rng) {
         if (!g_thorough && cnt % 3 && s != T(1) && v != T(1) && s != T(0)) continue;
         rgb_of(V(h, s, v));
         if (cnt % 13 == 0) rgb_of(VM(h, s, v)); if (cnt % 17 == 0) rgb_of(VL(h, s, v)); }
-    for (int i = 0; i < (g_thorough ? 20000 : 600); ++i) {
+    for (int i = 0; i < (g_thorough ? 8000 : 600); ++i) {
         T h = T((long long)rng.below(360u << 12)) / T(1 << 12), s = unit_random<T>(rng), v = unit_random<T>(rng);
         rgb_of(V(h, s, v));
         if (i % 6 == 0) rgb_of(V(T((long long)rng.below(6) * 60), s, v)); if (i % 6 == 1) rgb_of(V(h, T(1), v)); if (i % 6 == 2) rgb_of(V(h, s, T(1)));
@@ -195,7 +195,7 @@ template<class T, glm::qualifier Q> void ycocg_float(glm::vec<3, T, Q> const& c)
 }
 template<class T> void ycocg_float_all(Rng& rng) {
     typedef glm::vec<3, T, glm::highp> V; typedef glm::vec<3, T, glm::mediump> VM; typedef glm::vec<3, T, glm::lowp> VL;
-    const int N = g_thorough ? 12 : 5;
+    const int N = g_thorough ? 10 : 5;
     size_t cnt = 0;
     for (int r = 0; r <= N; ++r) for (int g = 0; g <= N; ++g) for (int b = 0; b <= N; ++b, ++cnt) {
         T x = ratio<T>(r, N), y = ratio<T>(g, N), z = ratio<T>(b, N);
@@ -203,7 +203,7 @@ template<class T> void ycocg_float_all(Rng& rng) {
         if (cnt % 5 == 0) ycocg_float(VM(x, y - ratio<T>(1, 2), z - ratio<T>(1, 2)));            // a point of the YCoCg box
         if (cnt % 7 == 0) ycocg_float(VL(z, x - ratio<T>(1, 2), y - ratio<T>(1, 2)));
     }
-    for (int i = 0; i < (g_thorough ? 20000 : 500); ++i) {
+    for (int i = 0; i < (g_thorough ? 5000 : 500); ++i) {
         T x = unit_random<T>(rng), y = unit_random<T>(rng), z = unit_random<T>(rng);
         ycocg_float(V(x, y, z));
         if (i % 4 == 0) ycocg_float(V(x, y - ratio<T>(1, 2), z - ratio<T>(1, 2)));
@@ -286,7 +286,7 @@ static void ycocgr_all(Rng& rng) {
     { std::vector<long long> s16; for (long long x : l16) s16.push_back(x - 32768); ycocgr_lattice_sweep<glm::int16>(s16); ycocgr_lattice_sweep<glm::int32>(s16); }
     // forward values and round trips judged one by one by the specification
     std::vector<long long> v8, v8s, v16;
-    if (g_thorough) { for (long long x = 0; x <= 255; x += 5) v8.push_back(x); v8.push_back(254); v8.push_back(1); }
+    if (g_thorough) { for (long long x = 0; x <= 255; x += 8) v8.push_back(x); v8.push_back(255); v8.push_back(1); v8.push_back(127); }
     else { const long long a[] = { 0, 1, 2, 3, 7, 8, 31, 64, 100, 127, 128, 129, 200, 254, 255 }; v8.assign(a, a + 15); }
     { const long long a[] = { 0, 1, 2, 5, 127, 128, 200, 255 }; v8s.assign(a, a + 8); }
     { const long long a[] = { 0, 1, 255, 256, 32767, 32768, 40000, 65535 }; v16.assign(a, a + 8); }
@@ -294,7 +294,7 @@ static void ycocgr_all(Rng& rng) {
     ycocgr_int_events<glm::int16>(v8s, 0); ycocgr_int_events<glm::int64>(v8s, 0); ycocgr_int_events<glm::uint8>(v8s, 0); ycocgr_int_events<glm::uint16>(v8s, 0);
     ycocgr_int_events<glm::uint32>(v8s, 0); ycocgr_int_events<glm::int8>(v8s, -128); ycocgr_int_events<glm::int32>(v8s, -128); ycocgr_int_events<glm::uint64>(v8s, 0);
     ycocgr_int_events<glm::int32>(v16, 0); ycocgr_int_events<glm::int64>(v16, 0); ycocgr_int_events<glm::uint16>(v16, 0); ycocgr_int_events<glm::int16>(v16, -32768);
-    for (int i = 0; i < (g_thorough ? 30000 : 1500); ++i) {
+    for (int i = 0; i < (g_thorough ? 20000 : 1500); ++i) {
         long long r = (long long)rng.below(1u << 28) - (1 << 27), g = (long long)rng.below(1u << 28) - (1 << 27), b = (long long)rng.below(1u << 28) - (1 << 27);
         ycocgr_int<glm::int32, glm::highp>(r, g, b);
         if (i % 3 == 0) ycocgr_int<glm::int64, glm::highp>(r * 4099, g * 8191, b * 127);
@@ -309,8 +309,8 @@ template<class T> void sat_lum_all(Rng& rng) {
     std::vector<T> ss;
     const T s0[] = { T(0), T(1), ratio<T>(1, 2), ratio<T>(1, 4), T(2), T(-1), ratio<T>(3, 2), ratio<T>(-1, 2), ratio<T>(1, 10), ratio<T>(9, 10), T(3) };
     for (T s : s0) ss.push_back(s);
-    for (int i = 0; i < (g_thorough ? 60 : 4); ++i) ss.push_back(unit_random<T>(rng) * T(2));
-    const int N = g_thorough ? 6 : 3;
+    for (int i = 0; i < (g_thorough ? 40 : 4); ++i) ss.push_back(unit_random<T>(rng) * T(2));
+    const int N = g_thorough ? 5 : 3;
     for (T s : ss) {
         glm::mat<4, 4, T, glm::defaultp> m = glm::saturation(s);
         Ev("saturationM").str("t", TI<T>::code()).num("n", 16).str("q", "h").arg(s).res(m).emit();
@@ -352,12 +352,14 @@ template<class T> void sat_lum_all(Rng& rng) {
 
 static void body(int argc, char** argv) {
     g_thorough = argc > 2 && std::string(argv[2]) == "thorough";
+    const std::string sec = argc > 3 ? argv[3] : "all";
+    auto on = [&](const char* s) { return sec == "all" || sec == s; };
     Rng rng(seed_from_env());
-    srgb_all<float>(rng); srgb_all<double>(rng);
-    hsv_all<float>(rng); hsv_all<double>(rng);
-    ycocg_float_all<float>(rng); ycocg_float_all<double>(rng);
-    ycocgr_all(rng);
-    sat_lum_all<float>(rng); sat_lum_all<double>(rng);
+    if (on("srgb")) { srgb_all<float>(rng); srgb_all<double>(rng); }
+    if (on("hsv")) { hsv_all<float>(rng); hsv_all<double>(rng); }
+    if (on("ycocg")) { ycocg_float_all<float>(rng); ycocg_float_all<double>(rng); }
+    if (on("int")) ycocgr_all(rng);
+    if (on("sat")) { sat_lum_all<float>(rng); sat_lum_all<double>(rng); }
     std::printf("EVENTS %llu\n", (unsigned long long)out().events);
 }
 int main(int argc, char** argv) { return run_main(argc, argv, body); }
